@@ -4,7 +4,6 @@ import (
 	"github.com/bokysan/socketace/v2/internal/util/enc"
 	log "github.com/sirupsen/logrus"
 	"golang.org/x/net/dns/dnsmessage"
-	"math"
 )
 
 const (
@@ -32,21 +31,18 @@ type UpstreamConfig struct {
 	QueryType    *dnsmessage.Type // -T force dns type: QueryTypeNull, QueryTypePrivate, QueryTypeTxt, QueryTypeSrv, QueryTypeMx, QueryTypeCname, QueryTypeAAAA, QueryTypeA (default: autodetect)
 }
 
-// GetLongestDataString returns the longest data string available, when all dots and domain are included in the calculation
+// GetLongestDataString returns the longest data string which PrepareHostname still accepts for the domain, i.e.
+// when the dots Dotify inserts (one after every 57 characters), the domain and its two dots are accounted for.
 func GetLongestDataString(domain string) int {
+	// what PrepareHostname allows for the data and its dots
+	space := HostnameMaxLen - 2 - len(domain) - 2
 
-	// Available space is maximum query length
-	space := HostnameMaxLen
-	// minus domain length minus dot before and after domain
-	space = space - len(domain) - 2
-
-	// minus command len
-	space = space - 1
-
-	// minus all dots that need to be inserted
-	space = space - int(math.Ceil(float64(space)/float64(LabelMaxlen)))
-
-	return space
+	for l := space; l > 0; l-- {
+		if l+(l-1)/57 <= space {
+			return l
+		}
+	}
+	return 0
 }
 
 // PrepareHostname will finalize hostname -- add dots in the name, if needed. It will verify that the total
